@@ -660,7 +660,10 @@ class PortCollection (object):
     if self._chain:
       p = self._chain[index]
       if p.port_no not in self._masks:
-        return p
+        # A port we hold a newer description of hides the parent's one
+        # (it may have been renamed or given another address)
+        if not any(q.port_no == p.port_no for q in self._ports):
+          return p
 
     raise IndexError("No key %s" % (index,))
 
